@@ -12,6 +12,8 @@ import (
 	"go/parser"
 	"go/token"
 	"go/types"
+	"os"
+	"path/filepath"
 	"strconv"
 	"strings"
 
@@ -312,6 +314,35 @@ func IndexSites(t *hutil.Target) (byPos map[int]*Site, byJ map[int][]*Site) {
 		return true
 	})
 	return
+}
+
+// CheckDetachedTarget parses and type-checks src under the file name `path` without making the file's bytes available
+// there: with disk == nil nothing exists at path (an in-memory file: generated code, an editor buffer never saved), otherwise
+// `disk` is what the file system holds (an editor overlay whose saved version differs from the analysed one). The engine
+// reads file bytes from the path the FileSet names, so what it can slice and what it must print depends on `disk`.
+func CheckDetachedTarget(path string, src, disk []byte) (*hutil.Target, error) {
+	if err := os.MkdirAll(filepath.Dir(path), 0o755); err != nil {
+		return nil, err
+	}
+	if disk == nil {
+		if err := os.Remove(path); err != nil && !os.IsNotExist(err) {
+			return nil, err
+		}
+	} else if err := os.WriteFile(path, disk, 0o644); err != nil {
+		return nil, err
+	}
+	fset := token.NewFileSet()
+	f, err := parser.ParseFile(fset, path, src, parser.ParseComments)
+	if err != nil {
+		return nil, err
+	}
+	info := hutil.NewInfo()
+	conf := types.Config{Importer: importer.ForCompiler(fset, "source", nil), Error: func(error) {}}
+	pkg, err := conf.Check(f.Name.Name, fset, []*ast.File{f}, info)
+	if err != nil {
+		return nil, fmt.Errorf("typecheck %s: %v", path, err)
+	}
+	return &hutil.Target{Fset: fset, File: f, Info: info, Pkg: pkg, Src: src, Path: path}, nil
 }
 
 // Text returns the exact source bytes of a node.
